@@ -47,3 +47,131 @@ package beacon
 //@   ensures n > k && k == 1 ==> forall i int :: 0 <= i && i < n ==> div(b0, beacons[i]) <= div(b0, result[0])
 //@   ensures n > k && result[k-1] != beacons[k-1] ==> forall i int :: 0 <= i && i < k-1 ==> div(b0, beacons[i]) < div(b0, result[k-1])
 //@   ensures n > k && result[k-1] != beacons[k-1] ==> forall i int :: k-1 <= i && i < n && div(b0, beacons[i]) == div(b0, result[k-1]) ==> len(result[k-1].Segment.ASEntries) <= len(beacons[i].Segment.ASEntries)
+
+//@ import addr "github.com/scionproto/scion/pkg/addr"
+
+//@ # ---- C25: loop and policy filters. A hop list is loop free if no AS occurs twice; it has no ISD loop if no ISD
+//@ # is re-entered after it was left (every hop's ISD equals the previous hop's ISD or has not occurred before).
+//@ macro isd(x) = uint16(uint64(x)>>48)
+//@ macro asn(x) = (uint64(x)&0xffffffffffff)
+//@ macro asLoopFree(h) = (forall i int :: forall j int :: 0 <= i && i < j && j < len(h) ==> h[i] != h[j])
+//@ macro isdLoopFree(h) = (forall i int :: forall k int :: 0 <= i && i < k && k < len(h) && isd(h[i]) == isd(h[k]) ==> isd(h[k-1]) == isd(h[k]))
+
+//@ func filterAsLoop
+//@   props C25
+//@   # no wildcard ISD-AS among the hops (segment validation rejects them): the function reports "no loop" by returning 0
+//@   requires forall k int :: 0 <= k && k < len(hops) ==> isd(hops[k]) != 0
+//@   modifies nothing
+//@   loop 1 invariant 0 <= (rangeindex+1) && (rangeindex+1) <= len(hops) && seen != nil
+//@   loop 1 invariant forall k int :: 0 <= k && k < (rangeindex+1) ==> inmap(seen, hops[k])
+//@   loop 1 invariant forall i int :: forall j int :: 0 <= i && i < j && j < (rangeindex+1) ==> hops[i] != hops[j]
+//@   ensures result == 0 ==> asLoopFree(hops)
+
+//@ func filterIsdLoop
+//@   props C25
+//@   requires forall k int :: 0 <= k && k < len(hops) ==> isd(hops[k]) != 0
+//@   modifies nothing
+//@   loop 1 invariant 0 <= (rangeindex+1) && (rangeindex+1) <= len(hops) && seen != nil
+//@   loop 1 invariant forall k int :: 0 <= k && k < (rangeindex+1) ==> inmap(seen, addr.ISD(isd(hops[k])))
+//@   loop 1 invariant ((rangeindex+1) == 0 ==> last == 0) && ((rangeindex+1) > 0 ==> uint16(last) == isd(hops[rangeindex]))
+//@   loop 1 invariant forall i int :: forall k int :: 0 <= i && i < k && k < (rangeindex+1) && isd(hops[i]) == isd(hops[k]) ==> isd(hops[k-1]) == isd(hops[k])
+//@   ensures result == 0 ==> isdLoopFree(hops)
+
+//@ func filterLoops
+//@   props C25
+//@   requires forall k int :: 0 <= k && k < len(hops) ==> isd(hops[k]) != 0
+//@   modifies nothing
+//@   ensures result == nil ==> asLoopFree(hops)
+//@   ensures result == nil && !allowIsdLoop ==> isdLoopFree(hops)
+
+//@ func buildHops
+//@   props C25
+//@   requires beacon.Segment != nil
+//@   modifies nothing
+//@   loop 1 invariant 0 <= (rangeindex+1) && (rangeindex+1) <= len(beacon.Segment.ASEntries) && len(hops) == (rangeindex+1)
+//@   loop 1 invariant forall k int :: 0 <= k && k < (rangeindex+1) ==> hops[k] == beacon.Segment.ASEntries[k].Local
+//@   ensures len(result) == len(beacon.Segment.ASEntries)
+//@   ensures forall k int :: 0 <= k && k < len(result) ==> result[k] == beacon.Segment.ASEntries[k].Local
+
+//@ # the conditions under which a filter lets a beacon pass, written from the statement
+//@ macro bh(b, i) = b.Segment.ASEntries[i].Local
+//@ macro nb(b) = len(b.Segment.ASEntries)
+//@ macro asFreeB(b) = (forall i int :: forall j int :: 0 <= i && i < j && j < nb(b) ==> bh(b, i) != bh(b, j))
+//@ macro isdFreeB(b) = (forall i int :: forall k int :: 0 <= i && i < k && k < nb(b) && isd(bh(b, i)) == isd(bh(b, k)) ==> isd(bh(b, k-1)) == isd(bh(b, k)))
+//@ macro noBlockedAS(f, b) = (forall i int :: forall a int :: 0 <= i && i < nb(b) && 0 <= a && a < len(f.AsBlackList) ==> asn(bh(b, i)) != uint64(f.AsBlackList[a]))
+//@ macro noBlockedISD(f, b) = (forall i int :: forall d int :: 0 <= i && i < nb(b) && 0 <= d && d < len(f.IsdBlackList) ==> isd(bh(b, i)) != uint16(f.IsdBlackList[d]))
+//@ macro beaconOK(b) = (b.Segment != nil && (forall k int :: 0 <= k && k < nb(b) ==> isd(bh(b, k)) != 0))
+
+//@ func (Filter).Apply
+//@   props C25
+//@   requires f.AllowIsdLoop != nil && beaconOK(beacon)
+//@   modifies nothing
+//@   loop 1 invariant 0 <= (rangeindex+1) && (rangeindex+1) <= len(hops)
+//@   loop 1 invariant forall i int :: forall a int :: 0 <= i && i < (rangeindex+1) && 0 <= a && a < len(f.AsBlackList) ==> asn(hops[i]) != uint64(f.AsBlackList[a])
+//@   loop 1 invariant forall i int :: forall d int :: 0 <= i && i < (rangeindex+1) && 0 <= d && d < len(f.IsdBlackList) ==> isd(hops[i]) != uint16(f.IsdBlackList[d])
+//@   loop 2 invariant 0 <= (rangeindex+1) && (rangeindex+1) <= len(f.AsBlackList) && 0 <= (rangeindex__1+1) && (rangeindex__1+1) < len(hops) && ia == hops[rangeindex__1+1]
+//@   loop 2 invariant forall a int :: 0 <= a && a < (rangeindex+1) ==> asn(ia) != uint64(f.AsBlackList[a])
+//@   # (loop 3 follows loop 2 inside the body of loop 1: the nearest enclosing-or-preceding index is loop 2's, then loop 1's)
+//@   loop 3 invariant 0 <= (rangeindex+1) && (rangeindex+1) <= len(f.IsdBlackList) && 0 <= (rangeindex__2+1) && (rangeindex__2+1) < len(hops) && ia == hops[rangeindex__2+1]
+//@   loop 3 invariant forall a int :: 0 <= a && a < len(f.AsBlackList) ==> asn(ia) != uint64(f.AsBlackList[a])
+//@   loop 3 invariant forall d int :: 0 <= d && d < (rangeindex+1) ==> isd(ia) != uint16(f.IsdBlackList[d])
+//@   ensures result == nil ==> nb(beacon) <= f.MaxHopsLength
+//@   ensures result == nil ==> asFreeB(beacon)
+//@   ensures result == nil && !*f.AllowIsdLoop ==> isdFreeB(beacon)
+//@   ensures result == nil ==> noBlockedAS(f, beacon)
+//@   ensures result == nil ==> noBlockedISD(f, beacon)
+
+//@ # a filter lets a beacon pass only under all five conditions of the statement
+//@ macro passes(f, b) = (nb(b) <= f.MaxHopsLength && asFreeB(b) && (*f.AllowIsdLoop || isdFreeB(b)) && noBlockedAS(f, b) && noBlockedISD(f, b))
+//@ macro polOK(p) = (p.Filter.AllowIsdLoop != nil)
+
+//@ # a usage bit is granted only if the policy of that usage lets the beacon pass
+//@ func (*Policies).Usage
+//@   props C25
+//@   requires p != nil && polOK(p.Prop) && polOK(p.UpReg) && polOK(p.DownReg) && beaconOK(beacon)
+//@   modifies nothing
+//@   ensures result&UsageProp != 0 ==> passes(p.Prop.Filter, beacon)
+//@   ensures result&UsageUpReg != 0 ==> passes(p.UpReg.Filter, beacon)
+//@   ensures result&UsageDownReg != 0 ==> passes(p.DownReg.Filter, beacon)
+//@   ensures result&^(UsageProp|UsageUpReg|UsageDownReg) == 0
+//@ func (*CorePolicies).Usage
+//@   props C25
+//@   requires p != nil && polOK(p.Prop) && polOK(p.CoreReg) && beaconOK(beacon)
+//@   modifies nothing
+//@   ensures result&UsageProp != 0 ==> passes(p.Prop.Filter, beacon)
+//@   ensures result&UsageCoreReg != 0 ==> passes(p.CoreReg.Filter, beacon)
+//@   ensures result&^(UsageProp|UsageCoreReg) == 0
+
+//@ # (Policies.Filter / CorePolicies.Filter, the pre-filter, are an early-drop optimisation: the gate that decides
+//@ # what is stored is Usage in baseStore.InsertBeacon; their three-way disjunction of quantified conditions
+//@ # discharges only in 15-20 s per path and is therefore not claimed)
+
+//@ # propagation: the beacon extended by the next AS must be loop free
+//@ func FilterLoop
+//@   props C25
+//@   requires beaconOK(beacon) && (next != 0 ==> isd(next) != 0)
+//@   modifies nothing
+//@   ensures result == nil ==> asFreeB(beacon) && (allowIsdLoop || isdFreeB(beacon))
+//@   ensures result == nil && next != 0 ==> forall i int :: 0 <= i && i < nb(beacon) ==> bh(beacon, i) != next
+//@   ensures result == nil && next != 0 && !allowIsdLoop && nb(beacon) > 0 ==> forall i int :: 0 <= i && i < nb(beacon) && isd(bh(beacon, i)) == isd(next) ==> isd(bh(beacon, nb(beacon)-1)) == isd(next)
+
+//@ import seg "github.com/scionproto/scion/pkg/segment"
+
+//@ # ---- the store: a beacon goes to the database with exactly the usage its policies grant, and not at all
+//@ # without any. Call log (ghost): the usage most recently computed by the store's usager, and for which segment.
+//@ ghost var lastUsage int
+//@ ghost var lastUsageSeg *seg.PathSegment
+//@ iface usager.Usage
+//@   modifies lastUsage, lastUsageSeg
+//@   ensures lastUsage == int(result) && lastUsageSeg == beacon.Segment
+//@ iface usager.Filter
+//@   modifies nothing
+//@ iface DB.InsertBeacon
+//@   requires int(usage) != 0 && int(usage) == lastUsage && beacon.Segment == lastUsageSeg
+//@ func (*baseStore).InsertBeacon
+//@   props C25
+//@   requires s != nil && s.usager != nil && s.db != nil
+//@ func (*baseStore).PreFilter
+//@   props C25
+//@   requires s != nil && s.usager != nil
+//@   modifies nothing
